@@ -15,7 +15,7 @@ import (
 func init() {
 	core.Register(&core.Property{
 		ID:   "C15",
-		Rule: "for every band configuration, seeded histories (length <= 30) over AddChannel(f, minDR, maxDR) / DisableUplinkChannelIndex(i) / EnableUplinkChannelIndex(i) with arbitrary integers (negative, == len, huge) run in lock-step with a sequential model of the channel plan; after every operation the five index-set getters (with the partition laws), GetUplinkChannel / GetDownlinkChannel for every index -2..len+1, the frequency and frequency+DR lookups for every present pair and some absent ones, GetTXPowerOffset(-2..20) and GetCFList for the 6 protocol versions + an unknown one are compared with the model; invalid arguments must give errors, never panics, and must leave the state unchanged. Every frequency / data-rate / CFList the band hands out (RX2 and ping-slot defaults, every channel, RX1 results, CFList) is pushed through RXParamSetupReq, NewChannelReq, DLChannelReq, PingSlotChannelReq, BeaconFreqReq and CFList/JoinAcceptPayload encode->decode and must come back equal. Distinct = (band, operation kind, argument class) / (band, MAC command, source of the value).",
+		Rule: "for every band configuration, seeded histories (length <= 30; one in seven 60..180) over AddChannel(f, minDR, maxDR) / DisableUplinkChannelIndex(i) / EnableUplinkChannelIndex(i) with arbitrary integers (negative, == len, huge) run in lock-step with a sequential model of the channel plan; after every operation the five index-set getters (with the partition laws), GetUplinkChannel / GetDownlinkChannel for every index -2..len+1, the frequency and frequency+DR lookups for every present pair and some absent ones, GetTXPowerOffset(-2..20) and GetCFList for the 6 protocol versions + an unknown one are compared with the model; invalid arguments must give errors, never panics, and must leave the state unchanged. Every frequency / data-rate / CFList the band hands out (RX2 and ping-slot defaults, every channel, RX1 results, CFList) is pushed through RXParamSetupReq, NewChannelReq, DLChannelReq, PingSlotChannelReq, BeaconFreqReq and CFList/JoinAcceptPayload encode->decode and must come back equal. Distinct = (band, operation kind, argument class) / (band, MAC command, source of the value).",
 		Assumptions: []string{
 			"AddChannel frequencies are multiples of 100 Hz inside the band (multiples of 200 Hz for ISM2400) and, one time in six, any multiple of 100 Hz that a 24-bit frequency field can carry (100 MHz - 1677.7215 MHz; NewChannelReq is not asked to carry 1.2-2.4 GHz, for which it has no coding); frequency 0 (an unused placeholder slot) one time in twelve",
 			"GetCFList lists custom channels regardless of their enabled flag (the property only asks for 'its custom channels, first five, in order')",
@@ -323,6 +323,9 @@ func runC15(c *core.Ctx) {
 				continue
 			}
 			steps := 3 + r.Intn(28)
+			if h%7 == 3 {
+				steps = 60 + r.Intn(120) // long histories: plans that outgrow 16, 64 and 72 entries
+			}
 			step := uint32(100)
 			if cfg.Name == "ISM2400" {
 				step = 200
